@@ -980,6 +980,8 @@ fn process_write_batch(
         }
     }
 
+    #[cfg(feature = "verif")]
+    crate::verif::sched("flush.allocated", batch_writes.len() as u64, 0);
     if !batch_writes.is_empty() {
         let mut disk_guard = disk_io.write();
         for write in &prepared_writes {
